@@ -1557,6 +1557,7 @@ Notes:
         return cons
     import mystic.symbolic as ms #XXX: randomness due to sympy?
     cons = ms.symbolic_bounds(min, max) #XXX: how clipping with symbolic?
+    if not cons: return lambda x: x # all bounds are infinite
     cons = ms.generate_constraint(ms.generate_solvers(ms.simplify(cons))) #join?
     return cons
 
